@@ -8,6 +8,7 @@
   is abstract), every document and every pointer — no size or depth bound.
 -/
 import JP.Lemmas.Pointer
+import JP.Generated.Tables
 namespace JP.Props.C04
 open JP JP.Pointer
 
@@ -55,6 +56,14 @@ theorem exists_iff_resolve (doc : J) (ps : List Part) :
     (∀ v, resolveParts doc ps = .ok v → existsIn doc ps = .ok true) ∧
     (∀ e, resolveParts doc ps = .error e → e.isPointerResolution = true → existsIn doc ps = .ok false) := by
   exact Lemmas.existsIn_spec doc ps
+
+/-- **Translated tables** (regenerated from pointer.py on every run): the index-token pattern, the keys
+    selector and the index limits in the source are the ones the model `parseIndexToken` / `indexOf` /
+    `getitem` were written for. A changed regular expression breaks this obligation even when harmless;
+    the check then searches for a failing input. -/
+theorem source_tables_ok :
+    Generated.reIndexToken = "(?:0|-?[1-9][0-9]*)" ∧ Generated.pointerKeysSelector = "~" ∧
+    Generated.pointerMaxIntIndex = maxIntIndex ∧ Generated.pointerMinIntIndex = minIntIndex := by decide
 
 /-! ### Non-vacuity: the hypotheses are met by concrete, non-trivial inputs -/
 
